@@ -51,7 +51,17 @@ MANIFEST = dict(
          "wrappers are C/C++ sources) is judged by the compiled Lean checker. setup.py, *_types.yaml and the .json/.log run logs "
          "take part in the file-set comparison only: the property demands token identity for the sources.",
     design="3 C16",
-    note="Trusted: Lean kernel (axioms propext, Quot.sound); the lexical models: not modelled are trigraphs, raw strings, splices "
+    note="PROVED IN LEAN (all texts, no bound): the checker's meaning - it accepts a pair iff the language-level token lists after "
+         "comment removal are equal, tokens only regroup the characters of the stripped text, comment-block / blank-line / "
+         "trailing-comment edits at code-state positions are accepted in any number, code-state hypotheses necessary, stripping "
+         "idempotent; and (decide +kernel over tables regenerated from the working tree's AST on every run) that no statement "
+         "guarded by the six options, no emitter statement, no option read, no comment-list write, no append to an "
+         "emptiness-tested list, no write_version read and no dynamic part of a comment template falls outside the comment-only "
+         "classes. VALIDATED PER OUTPUT (not proved): that the real generator's outputs for a given library and option placement "
+         "have equal file sets and are accepted by the checker - this is checked pair by pair on the libraries generated in a "
+         "run; nothing is proved about Shroud's emitters themselves beyond the syntactic table theorems, whose classes (comment "
+         "template, local temporary, flag, allow-list) are a sufficient condition only under the assumptions listed. ALSO "
+         "VALIDATED, NOT PROVED: that the lexical models agree with gcc/gfortran. Trusted: Lean kernel (axioms propext, Quot.sound); the lexical models: not modelled are trigraphs, raw strings, splices "
          "outside // comments and literals, #if 0, C++14 digit separators, Fortran continuation inside character context, fixed form, ';'; "
          "where not exact the tokens are coarser than the compilers' (identifier glued to an adjacent literal, adjacent literals, "
          "'..', Fortran names joined by dots; header names after #include and NAME( after #define are single tokens) so a blank cannot move into or out of a compiler token unnoticed - this coarseness "
@@ -89,6 +99,7 @@ THEOREMS = {
         "Shroud.Gen.Guards.comment_lists_clean",
         "Shroud.Gen.Guards.no_guarded_append_decides_file",
         "Shroud.Gen.Guards.write_version_read_only_for_header",
+        "Shroud.Gen.Guards.comment_text_parts_safe",
         "Shroud.Lex.lex_tokens_concat",
         "Shroud.Lex.tokensOf_congr",
         "Shroud.Gen.Guards.guards_found",
@@ -548,7 +559,7 @@ def _cpp_if(pattern, k, n, tag):
 
 
 def _doxygen(r, what):
-    kind = r.choice(["single", "multi", "multi-no-trailing-newline", "brief-only"])
+    kind = r.choice(["single", "multi", "multi-no-trailing-newline", "brief-only", "tab-formfeed-long"])
     FEATURES["doxygen:" + kind] += 1
     if kind == "single":
         return {"brief": "brief of " + what, "description": "one line\n"}
@@ -557,6 +568,9 @@ def _doxygen(r, what):
                 "return": "what it returns\nmore\n"}
     if kind == "multi-no-trailing-newline":
         return {"brief": "brief of " + what, "description": "no trailing newline\nsecond line", "return": "value"}
+    if kind == "tab-formfeed-long":
+        return {"brief": "brief of %s\twith a tab and enough words to be longer than the line length of every writer\tend" % what,
+                "description": "col1\tcol2 " + "x" * 90 + "\fcol3\n", "return": "a\tb"}
     return {"brief": "brief of " + what}
 
 
